@@ -712,7 +712,7 @@ unless the file was moved or copied by hand; modelled here so that the observati
 structure RegFile where
   savePath : Nat
   nodes : List Svc
-deriving Repr
+deriving Repr, DecidableEq
 
 /-- `fs` maps a path to the content of the file there. -/
 def loadReg (fs : List (Nat × RegFile)) (path : Nat) : Option RegFile := (fs.find? (fun e => e.1 = path)).map (·.2)
